@@ -802,6 +802,9 @@ where
         let jobs_done_future = server.wait_all();
         pin_mut!(jobs_done_future);
         wait_for(jobs_done_future, job_futures.as_mut()).await?;
+        // wait_all gives up our own token (and a toplevel redo puts every token
+        // back in the pipe for its self-test), so get one back before going on.
+        server.ensure_token_or_cheat("self", &mut cheat).await?;
         let errored = {
             let r = result.replace(Ok(()));
             let errored = r.is_err();
